@@ -1145,3 +1145,79 @@ def k14(ctx):
 
 
 RULES.append(k14)
+
+
+@rule("K15", cfgs=EXPL, doc="prove_congruence derives the slot correspondence left -> right: bound / direct slots pairwise in occurrence order (left first), argument slots through each child proof (child_eq.l.m ; child_eq.r.m^-1, looked up in the LEFT child's map by its first and in the RIGHT child's map by its second component), renames the LEFT identity invocation by it and lifts (renamed left, right)")
+def k15(ctx):
+    crate = ctx.lib()
+    bs = [b for b in crate.by_name.get("prove_congruence", []) if b.kind != "Closure" and "egraph::EGraph" in (b.impl_self or "")]
+    if len(bs) != 1:
+        raise mir.AnchorMissing("EGraph::prove_congruence")
+    b = bs[0]
+
+    pl_, pr_ = b.var_names.get(2) or "l", b.var_names.get(3) or "r"
+
+    def side(r, depth=0):
+        """which of the two class parameters the value is drawn from — not counting what merely selects a position (the index of
+        an `index(..)` / `get(..)`, a range bound)"""
+        r = strip_role(r)
+        sd = set()
+        if not isinstance(r, tuple) or depth > 40:
+            return sd
+        if r == ("param", pl_):
+            return {"l"}
+        if r == ("param", pr_):
+            return {"r"}
+        k = r[0]
+        if k == "call":
+            args = r[3][:1] if r[1] in ("index", "get", "index_mut", "get_mut") else r[3]
+            for a in args:
+                sd |= side(a, depth + 1)
+        elif k in ("field", "index", "variant", "discr"):
+            sd |= side(r[1], depth + 1)
+        elif k == "phi":
+            for a in r[1]:
+                sd |= side(a, depth + 1)
+        elif k == "agg":
+            if "Range" not in str(r[1]):
+                for a in r[2]:
+                    sd |= side(a, depth + 1)
+        elif k == "bin":
+            sd |= side(r[2], depth + 1) | side(r[3], depth + 1)
+        return sd
+    tis = [c for c in b.calls if c.callee and c.callee.name == "try_insert" and not b.blocks[c.bb]["cleanup"]]
+    ctx.floor("correspondence inserts in prove_congruence", len(tis), 2)
+    for k, c in enumerate(tis):
+        a0, a1 = b.role_of_operand(c.args[0]), b.role_of_operand(c.args[1])
+        s0, s1 = side(a0), side(a1)
+        if s0 == {"l", "r"} and s1 == {"l", "r"}:
+            # elements of zip(left occurrences, right occurrences): positions decide
+            z0, z1 = side(_elem_source(a0)), side(_elem_source(a1))
+            s0, s1 = z0, z1
+        ctx.check(s0 == {"l"} and s1 == {"r"}, "congruence-map-direction:%d" % k, "the correspondence is recorded as (left slot -> right slot)",
+                  "prove_congruence records a correspondence whose key comes from the %s side and whose value from the %s side: the map renames the LEFT identity invocation into the right one's names, so keys are left slots and values right slots" % (sorted(s0), sorted(s1)), where_of(b, c.bb))
+    gets = [c for c in b.calls if c.callee and c.callee.name == "get" and "SlotMap" in (c.callee.impl_self or "") and not b.blocks[c.bb]["cleanup"]]
+    n_g = 0
+    for c in gets:
+        sd = side(b.role_of_operand(c.args[0]))
+        key = strip_role(b.role_of_operand(c.args[1]))
+        comp = key[2] if isinstance(key, tuple) and key[0] == "field" else None
+        if len(sd) != 1 or comp not in ("0", "1"):
+            continue
+        n_g += 1
+        ok = (sd == {"l"} and comp == "0") or (sd == {"r"} and comp == "1")
+        ctx.check(ok, "child-association-lookup:" + sorted(sd)[0], "a child association (a, b) is looked up as left-child.m[a] and right-child.m[b]",
+                  "prove_congruence looks component %s of a child association up in the %s child's argument map: the association maps a slot of the LEFT child class to a slot of the RIGHT one (child_eq.l.m ; child_eq.r.m^-1)" % (comp, "left" if sd == {"l"} else "right"), where_of(b, c.bb))
+    ctx.floor("child association look-ups in prove_congruence", n_g, 2)
+    cps = [c for c in b.calls if c.callee and c.callee.name == "compose_partial" and not b.blocks[c.bb]["cleanup"]]
+    okc = any(role_str(b.role_of_operand(c.args[0]), 30).endswith(".l.m") and role_str(b.role_of_operand(c.args[1]), 30).startswith("inverse(") and role_str(b.role_of_operand(c.args[1]), 30).endswith(".r.m)") for c in cps)
+    ctx.check(okc, "child-association", "a child's association is child_eq.l.m ; child_eq.r.m^-1", "prove_congruence computes a child's association as %s" % [(role_str(b.role_of_operand(c.args[0]), 30)[-12:], role_str(b.role_of_operand(c.args[1]), 30)[-14:]) for c in cps], where_of(b))
+    af = [c for c in b.calls if c.callee and c.callee.name == "apply_slotmap_fresh" and not b.blocks[c.bb]["cleanup"]]
+    okf = any(side(b.role_of_operand(c.args[0])) == {"l"} for c in af)
+    ctx.check(okf, "left-renamed", "the LEFT identity invocation is renamed by the correspondence", "prove_congruence renames %s by the left -> right correspondence" % [sorted(side(b.role_of_operand(c.args[0]))) for c in af], where_of(b))
+    lf = [c for c in b.calls if c.callee and c.callee.name == "lift_sem_congruence" and not b.blocks[c.bb]["cleanup"]]
+    okl = any(role_mentions_call(b.role_of_operand(c.args[1]), "apply_slotmap_fresh") and side(b.role_of_operand(c.args[2])) == {"r"} and not role_mentions_call(b.role_of_operand(c.args[2]), "apply_slotmap_fresh") for c in lf)
+    ctx.check(okl, "lifts-renamed-left-and-right", "lift_sem_congruence(renamed left, right, child proofs)", "prove_congruence does not lift (renamed left invocation, right identity invocation) in that order", where_of(b))
+
+
+RULES.append(k15)
